@@ -156,9 +156,6 @@ def _dumpstruct(
     foreground, background = None, None
     bits_type, bits_remaining = None, 0
     for field in structure.__class__.__fields__:
-        if getattr(field.type, "anonymous", False):
-            continue
-
         if field.bits:
             # Bit fields have no size of their own: the field that opens a storage unit gets the bytes of the unit
             field_type = field.type.type if issubclass(field.type, Enum) else field.type
